@@ -431,7 +431,7 @@ def layer_separator(ctx, n):
 
 
 def run(ctx):
-    monitors.install(ctx)
+    monitors.install(ctx, tokalg=False)
     install_repeat_contract(ctx)
     layer_closed_forms(ctx)
     layer_nests(ctx, 150 if ctx.quick else 3000)
